@@ -137,25 +137,35 @@ Definition is_push (n : node) (e : event) : bool :=
 Definition is_cb (k : cbk) (n : node) (e : event) : bool :=
   match e with
   | Cb k' m | CbFail k' m =>
-      Nat.eqb m n && match k, k' with CPre, CPre | CPost, CPost | CSkip, CSkip => true | _, _ => false end
+      Nat.eqb m n && match k, k' with
+                      | CPre, CPre | CPost, CPost | CSkip, CSkip | CMounted, CMounted
+                      | CMountFrom, CMountFrom => true
+                      | _, _ => false
+                      end
   | _ => false
   end.
 
 Definition fetched_ph (p : phase) : bool :=
   match p with
-  | MF1 | MF2 | F1 _ | F2 _ | Pushing _ _ | Closing _ | TagP0 _ | TagP1 _ | PostP | Done | Dead => true
+  | MF1 | MF2 | F1 _ | F2 _ | Pushing _ _ | Closing _ | TagP0 _ | TagP1 _ | PostP | Done | Dead
+  | MtF1 | MtF2 | MtC | MountedP => true
   | _ => false
   end.
 Definition pushed_ph (p : phase) : bool :=
   match p with
-  | Pushing _ _ | Closing _ | TagP0 _ | TagP1 _ | PostP | Done | Dead => true
+  | Pushing _ _ | Closing _ | TagP0 _ | TagP1 _ | PostP | Done | Dead
+  | MtPre | MtF1 | MtF2 | MtC | MountedP => true
   | _ => false
   end.
 Definition prepast_ph (p : phase) : bool :=
   match p with
-  | Rdy _ | F1 _ | F2 _ | Pushing _ _ | Closing _ | TagP0 _ | TagP1 _ | PostP | Done | Dead => true
+  | Rdy _ | F1 _ | F2 _ | Pushing _ _ | Closing _ | TagP0 _ | TagP1 _ | PostP | Done | Dead
+  | MtPre | MtF1 | MtF2 | MtC | MountedP => true
   | _ => false
   end.
+(* MountFrom is asked at most once: everything after Waiting *)
+Definition mfpast_ph (p : phase) : bool :=
+  match p with MtRdy | Mounting => true | p => prepast_ph p end.
 Definition postpast_ph (p : phase) : bool :=
   match p with Done | Dead => true | _ => false end.
 Definition skippast_ph (p : phase) : bool :=
@@ -184,6 +194,8 @@ Proof. closed_set_tac. Qed.
 Lemma postpast_closed : closed_set postpast_ph.
 Proof. closed_set_tac. Qed.
 Lemma skippast_closed : closed_set skippast_ph.
+Proof. closed_set_tac. Qed.
+Lemma mfpast_closed : closed_set mfpast_ph.
 Proof. closed_set_tac. Qed.
 
 (* an event on node n moves n from outside the set into it *)
@@ -222,10 +234,10 @@ Proof.
   - blocks_tac.
 Qed.
 
-Lemma cb_once k n tr st st' : (k = CPre \/ k = CPost \/ k = CSkip) ->
+Lemma cb_once k n tr st st' :
   run g c st tr = Some st' -> cnt (is_cb k n) tr <= 1.
 Proof.
-  intros Hk H. destruct Hk as [Hk | [Hk | Hk]]; subst k.
+  intros H. destruct k.
   - refine (proj1 (one_shot g c (is_cb CPre n) (fun s => prepast_ph (ph s n) = true) _ _ _ tr st st' H)).
     + intros s e s' Hs Hd. eapply prepast_closed; eauto.
     + enters_tac.
@@ -236,6 +248,14 @@ Proof.
     + blocks_tac.
   - refine (proj1 (one_shot g c (is_cb CSkip n) (fun s => skippast_ph (ph s n) = true) _ _ _ tr st st' H)).
     + intros s e s' Hs Hd. eapply skippast_closed; eauto.
+    + enters_tac.
+    + blocks_tac.
+  - refine (proj1 (one_shot g c (is_cb CMounted n) (fun s => postpast_ph (ph s n) = true) _ _ _ tr st st' H)).
+    + intros s e s' Hs Hd. eapply postpast_closed; eauto.
+    + enters_tac.
+    + blocks_tac.
+  - refine (proj1 (one_shot g c (is_cb CMountFrom n) (fun s => mfpast_ph (ph s n) = true) _ _ _ tr st st' H)).
+    + intros s e s' Hs Hd. eapply mfpast_closed; eauto.
     + enters_tac.
     + blocks_tac.
 Qed.
@@ -280,16 +300,16 @@ Variable g : graph.
 Variable c : cfg.
 Variable d0 : list node.
 
-(* terminal notification of a node: PostCopy or OnCopySkipped was invoked (and returned nil) *)
+(* terminal notification of a node: PostCopy, OnCopySkipped or OnMounted was invoked (and returned nil) *)
 Definition notified (x : node) (tr : list event) : Prop :=
-  In (Cb CPost x) tr \/ In (Cb CSkip x) tr.
+  In (Cb CPost x) tr \/ In (Cb CSkip x) tr \/ In (Cb CMounted x) tr.
 
 Definition NInv (hist : list event) (st : state) : Prop :=
   (forall x, ph st x = Done -> notified x hist \/ root_refpush c x = true) /\
   (forall x, ph st x = TagP0 true \/ ph st x = TagP1 true -> In (Cb CSkip x) hist).
 
 Lemma notified_app x h e : notified x h -> notified x (h ++ [e]).
-Proof. intros [H|H]; [left|right]; apply in_or_app; auto. Qed.
+Proof. intros [H|[H|H]]; [left|right;left|right;right]; apply in_or_app; auto. Qed.
 
 Lemma ninv_step hist st e st' : Inv g c d0 st -> NInv hist st -> step g c st e = Some st' ->
   NInv (hist ++ [e]) st'.
@@ -302,8 +322,9 @@ Proof.
     (upd_cases x n; [| now apply Old]);
     split_ifs_in Hx; try discriminate Hx;
     first [ left; left; apply in_or_app; right; left; reflexivity
-          | left; right; apply in_or_app; right; left; reflexivity
-          | left; right; apply in_or_app; left; apply N2; solve [auto]
+          | left; right; left; apply in_or_app; right; left; reflexivity
+          | left; right; right; apply in_or_app; right; left; reflexivity
+          | left; right; left; apply in_or_app; left; apply N2; solve [auto]
           | right; apply (i_skflag g c d0 st I); old_ph; reflexivity ].
   - intros x Hx.
     assert (Old : ph st x = TagP0 true \/ ph st x = TagP1 true -> In (Cb CSkip x) (hist ++ [e])).
@@ -403,12 +424,10 @@ Qed.
 
 Lemma callbacks_once_lemma (g : graph) (c : cfg) (d0 : list node) tr st n :
   accepts g c d0 tr = Some st ->
-  cnt (is_cb CPre n) tr <= 1 /\ cnt (is_cb CPost n) tr <= 1 /\ cnt (is_cb CSkip n) tr <= 1.
+  cnt (is_cb CPre n) tr <= 1 /\ cnt (is_cb CPost n) tr <= 1 /\ cnt (is_cb CSkip n) tr <= 1 /\
+  cnt (is_cb CMounted n) tr <= 1 /\ cnt (is_cb CMountFrom n) tr <= 1.
 Proof.
-  intro H. repeat split;
-    [exact (cb_once g c CPre n tr _ _ (or_introl eq_refl) H)
-    |exact (cb_once g c CPost n tr _ _ (or_intror (or_introl eq_refl)) H)
-    |exact (cb_once g c CSkip n tr _ _ (or_intror (or_intror eq_refl)) H)].
+  intro H. repeat split; apply (cb_once g c _ n tr _ _ H).
 Qed.
 
 (* ------------------------------------------------------------------ exactly once for transferred nodes *)
@@ -440,16 +459,32 @@ Qed.
 Lemma phase_eq_done (p : phase) : p = Done \/ p <> Done.
 Proof. destruct p; auto; right; discriminate. Qed.
 
+(* PreCopy was invoked and the node is on its way to PostCopy *)
+Definition prep_ph (p : phase) : bool :=
+  match p with
+  | Rdy false | F1 false | F2 false | Pushing false _ | Closing false | TagP0 false | TagP1 false | PostP
+  | MtPre | MtF1 | MtF2 | MtC => true
+  | _ => false
+  end.
+
+Lemma prep_not_skipdone p : prep_ph p = true -> skipdone_ph p = true -> False.
+Proof. destruct p; simpl; try discriminate; destruct sk; discriminate. Qed.
+
+(* the event by which the content of n is uploaded: a successful Push / PushReference, or
+   a Mount that fell back to uploading *)
+Definition is_xfer (n : node) (e : event) : Prop :=
+  (exists ref, e = PuE n ref POk) \/ e = MtE n MCopied.
+
 Section Exactly.
 Variable g : graph.
 Variable c : cfg.
 Variable d0 : list node.
 
-Definition pushok (n : node) (h : list event) : Prop := exists ref, In (PuE n ref POk) h.
+Definition pushok (n : node) (h : list event) : Prop := exists e, In e h /\ is_xfer n e.
 Definition skipped (n : node) (h : list event) : Prop := In (Cb CSkip n) h \/ In (CbFail CSkip n) h.
 
 Record HInv (h : list event) (st : state) : Prop := {
-  h_pre : forall n, settled_ph (ph st n) = true -> In (Cb CPre n) h;
+  h_pre : forall n, prep_ph (ph st n) = true -> In (Cb CPre n) h;
   h_ok : forall n, pushok n h -> postok_ph (ph st n) = true;
   h_skip : forall n, skipped n h -> skipdone_ph (ph st n) = true;
   h_okpre : forall n, pushok n h -> In (Cb CPre n) h;
@@ -462,11 +497,11 @@ Proof.
   rewrite in_app_iff. simpl. intuition.
 Qed.
 
-Lemma pushok_snoc n h e : pushok n (h ++ [e]) <-> pushok n h \/ exists ref, e = PuE n ref POk.
+Lemma pushok_snoc n h e : pushok n (h ++ [e]) <-> pushok n h \/ is_xfer n e.
 Proof.
   unfold pushok. split.
-  - intros [ref H]. apply in_snoc in H as [H|H]; eauto.
-  - intros [[ref H]|[ref ->]]; exists ref; apply in_snoc; auto.
+  - intros [x [H Hx]]. apply in_snoc in H as [H|H]; [left; eauto | right; now subst].
+  - intros [[x [H Hx]]|H]; [exists x | exists e]; split; auto; apply in_snoc; auto.
 Qed.
 
 Lemma skipped_snoc n h e : skipped n (h ++ [e]) <-> skipped n h \/ e = Cb CSkip n \/ e = CbFail CSkip n.
@@ -474,20 +509,26 @@ Proof.
   unfold skipped. rewrite !in_snoc. intuition congruence.
 Qed.
 
-(* the phase of n right after a successful push of n *)
-Lemma step_pushok st n ref st' : Inv g c d0 st -> step g c st (PuE n ref POk) = Some st' ->
-  (exists rd, ph st n = Pushing false rd) /\ postok_ph (ph st' n) = true /\ ph st' n <> Done.
+(* the phase of n around the upload of n *)
+Lemma step_xfer st e n st' : Inv g c d0 st -> step g c st e = Some st' -> is_xfer n e ->
+  prep_ph (ph st n) = true /\ postok_ph (ph st' n) = true /\ ph st' n <> Done.
 Proof.
-  intros I H. unfold step in H. destruct (returned st); [discriminate|].
-  destruct (negb (eqb ref (root_refpush c n))); [discriminate|].
-  destruct (ph st n) eqn:Hp; try discriminate.
-  destruct (has g (dst st) n) eqn:Hh; [discriminate|].
-  injection H as <-. simpl. rewrite upd_same.
-  destruct sk.
-  - exfalso. assert (has g (dst st) n = true) by (apply (i_present g c d0 st I); rewrite Hp; reflexivity).
-    congruence.
-  - split; [eauto|]. unfold after_push. destruct rd; simpl; [split; [reflexivity|discriminate]|].
-    destruct (root_tagger c n); simpl; split; try reflexivity; discriminate.
+  intros I H [[ref ->]| ->].
+  - unfold step in H. destruct (returned st); [discriminate|].
+    destruct (negb (eqb ref (root_refpush c n))); [discriminate|].
+    destruct (ph st n) eqn:Hp; try discriminate.
+    destruct (has g (dst st) n) eqn:Hh; [discriminate|].
+    injection H as <-. simpl. rewrite upd_same.
+    destruct sk.
+    + exfalso. assert (has g (dst st) n = true) by (apply (i_present g c d0 st I); rewrite Hp; reflexivity).
+      congruence.
+    + split; [reflexivity|]. unfold after_push. destruct rd; simpl; [split; [reflexivity|discriminate]|].
+      destruct (root_tagger c n); simpl; split; try reflexivity; discriminate.
+  - unfold step in H. destruct (returned st); [discriminate|].
+    destruct (ph st n) eqn:Hp; try discriminate.
+    destruct (has g (dst st) n) eqn:Hh; [discriminate|].
+    injection H as <-. simpl. rewrite upd_same. split; [reflexivity|].
+    unfold after_push. destruct (root_tagger c n); simpl; split; try reflexivity; discriminate.
 Qed.
 
 Lemma step_skip_cb st n st' : step g c st (Cb CSkip n) = Some st' ->
@@ -524,13 +565,13 @@ Lemma hinv_step h st e st' : Inv g c d0 st -> HInv h st -> step g c st e = Some 
 Proof.
   intros I HI H.
   assert (OK : forall n, pushok n (h ++ [e]) -> postok_ph (ph st' n) = true).
-  { intros n Hn. apply pushok_snoc in Hn as [Hn|[ref ->]].
+  { intros n Hn. apply pushok_snoc in Hn as [Hn|Hn].
     - eapply postok_closed; eauto. now apply (h_ok h st HI).
-    - now destruct (step_pushok st n ref st' I H) as [_ [Hq _]]. }
+    - now destruct (step_xfer st e n st' I H Hn) as [_ [Hq _]]. }
   constructor.
-  - (* PreCopy seen for settled nodes *)
+  - (* PreCopy seen *)
     intros n Hs. apply in_snoc.
-    assert (Old : settled_ph (ph st n) = true -> In (Cb CPre n) h \/ Cb CPre n = e)
+    assert (Old : prep_ph (ph st n) = true -> In (Cb CPre n) h \/ Cb CPre n = e)
       by (intro Hq; left; now apply (h_pre h st HI)).
     step_inv H; simp_st; try (now apply Old);
     (upd_cases n n0; [| now apply Old]);
@@ -546,27 +587,27 @@ Proof.
     + eapply skipdone_closed; eauto. now apply (h_skip h st HI).
     + now destruct (step_skip_cb st n st' H).
     + now destruct (step_skip_fail st n st' H).
-  - (* pushed => PreCopy seen *)
-    intros n Hn. apply in_snoc. apply pushok_snoc in Hn as [Hn|[ref ->]].
+  - (* uploaded => PreCopy seen *)
+    intros n Hn. apply in_snoc. apply pushok_snoc in Hn as [Hn|Hn].
     + left. now apply (h_okpre h st HI).
-    + left. destruct (step_pushok st n ref st' I H) as [[rd Hq] _].
-      apply (h_pre h st HI). now rewrite Hq.
-  - (* pushed and Done => PostCopy seen *)
-    intros n Hn Hd. apply in_snoc. apply pushok_snoc in Hn as [Hn|[ref ->]].
+    + left. destruct (step_xfer st e n st' I H Hn) as [Hq _].
+      now apply (h_pre h st HI).
+  - (* uploaded and Done => PostCopy seen *)
+    intros n Hn Hd. apply in_snoc. apply pushok_snoc in Hn as [Hn|Hn].
     + destruct (phase_eq_done (ph st n)) as [Hq|Hq].
       * left. now apply (h_okpost h st HI).
       * right. symmetry. eapply step_to_done; eauto. now apply (h_ok h st HI).
-    + destruct (step_pushok st n ref st' I H) as [_ [_ Hq]]. contradiction.
-  - (* pushed and skipped exclude each other *)
-    intros n Hp Hs. apply pushok_snoc in Hp as [Hp|[ref ->]]; apply skipped_snoc in Hs as [Hs|Hs].
+    + destruct (step_xfer st e n st' I H Hn) as [_ [_ Hq]]. contradiction.
+  - (* uploaded and skipped exclude each other *)
+    intros n Hp Hs. apply pushok_snoc in Hp as [Hp|Hp]; apply skipped_snoc in Hs as [Hs|Hs].
     + eapply (h_excl h st HI); eauto.
     + pose proof (h_ok h st HI n Hp) as Hq.
       destruct Hs as [->| ->];
         [destruct (step_skip_cb st n st' H) as [Hz _] | destruct (step_skip_fail st n st' H) as [Hz _]];
         rewrite Hz in Hq; discriminate.
-    + destruct (step_pushok st n ref st' I H) as [[rd Hq] _].
-      pose proof (h_skip h st HI n Hs) as Hz. rewrite Hq in Hz. discriminate.
-    + destruct Hs; discriminate.
+    + destruct (step_xfer st e n st' I H Hp) as [Hq _].
+      exact (prep_not_skipdone _ Hq (h_skip h st HI n Hs)).
+    + destruct Hp as [[ref ->]| ->]; destruct Hs; discriminate.
 Qed.
 End Exactly.
 
@@ -589,23 +630,23 @@ Qed.
 Lemma hinv_init : HInv [] (init c d0).
 Proof.
   constructor; simpl; intros; try discriminate;
-  try (match goal with Hx : pushok _ [] |- _ => destruct Hx as [? []] end);
+  try (match goal with Hx : pushok _ [] |- _ => destruct Hx as [? [[] _]] end);
   try (match goal with Hx : skipped _ [] |- _ => destruct Hx as [[]|[]] end).
 Qed.
 
 (* a transferred node of a successful copy: exactly one PreCopy, exactly one PostCopy,
    no OnCopySkipped; PreCopy precedes the push and PostCopy follows it (same-node events
    are ordered by the phase sequence Waiting -> Rdy -> Pushing -> ... -> PostP -> Done) *)
-Lemma transferred_exactly_once tr st n ref :
+Lemma transferred_exactly_once tr st n e :
   accepts g c d0 tr = Some st -> returned st = Some true ->
-  In (PuE n ref POk) tr ->
+  In e tr -> is_xfer n e ->
   cnt (is_cb CPre n) tr = 1 /\ cnt (is_cb CPost n) tr = 1 /\ cnt (is_cb CSkip n) tr = 0.
 Proof.
-  intros Ha Hr Hin. pose proof Ha as Ha'. unfold accepts in Ha.
+  intros Ha Hr Hin Hx. pose proof Ha as Ha'. unfold accepts in Ha.
   pose proof (run_inv g c d0 tr _ _ (init_inv g c d0) Ha) as I.
   pose proof (hinv_run tr [] _ _ (init_inv g c d0) hinv_init Ha) as HI. simpl in HI.
-  assert (Hp : pushok n tr) by (exists ref; exact Hin).
-  destruct (callbacks_once_lemma g c d0 tr st n Ha') as [L1 [L2 L3]].
+  assert (Hp : pushok n tr) by (exists e; split; assumption).
+  destruct (callbacks_once_lemma g c d0 tr st n Ha') as [L1 [L2 [L3 _]]].
   pose proof (h_ok tr st HI n Hp) as Hok.
   assert (Hn : n < g_n g).
   { apply (i_bound g c d0 st I). intro Hz. rewrite Hz in Hok. discriminate. }
@@ -620,10 +661,10 @@ Proof.
   assert (G2 : 1 <= cnt (is_cb CPost n) tr)
     by (eapply cnt_ge1; [exact Hpost | simpl; now rewrite Nat.eqb_refl]).
   repeat split; try lia.
-  apply cnt_zero. intros e He.
-  destruct (is_cb CSkip n e) eqn:Ec; auto. exfalso.
+  apply cnt_zero. intros e0 He.
+  destruct (is_cb CSkip n e0) eqn:Ec; auto. exfalso.
   apply (h_excl tr st HI n Hp).
-  destruct e; simpl in Ec; try discriminate;
+  destruct e0; simpl in Ec; try discriminate;
     apply andb_true_iff in Ec as [E1 E2]; apply Nat.eqb_eq in E1; subst;
     destruct k; try discriminate; [left|right]; exact He.
 Qed.
@@ -657,19 +698,99 @@ Proof.
 Qed.
 
 (* PreCopy of a node precedes its (successful) push, PostCopy follows it *)
-Lemma push_between_callbacks tr1 n ref tr2 st :
-  accepts g c d0 (tr1 ++ PuE n ref POk :: tr2) = Some st ->
+Lemma push_between_callbacks tr1 n e tr2 st :
+  is_xfer n e ->
+  accepts g c d0 (tr1 ++ e :: tr2) = Some st ->
   In (Cb CPre n) tr1 /\ ~ In (Cb CPost n) tr1.
 Proof.
-  intros Ha. unfold accepts in Ha. apply run_app in Ha as [st1 [H1 H2]].
+  intros Hx Ha. unfold accepts in Ha. apply run_app in Ha as [st1 [H1 H2]].
   pose proof (run_inv g c d0 tr1 _ _ (init_inv g c d0) H1) as I1.
   pose proof (hinv_run g c d0 tr1 [] _ _ (init_inv g c d0) (hinv_init c d0) H1) as HI. simpl in HI.
   assert (P1 : PInv tr1 st1).
   { apply (pinv_run tr1 [] (init c d0) st1); [intros m []|exact H1]. }
-  simpl in H2. destruct (step g c st1 (PuE n ref POk)) as [s2|] eqn:E; [|discriminate].
-  destruct (step_pushok g c d0 st1 n ref s2 I1 E) as [[rd Hq] _].
+  simpl in H2. destruct (step g c st1 e) as [s2|] eqn:E; [|discriminate].
+  destruct (step_xfer g c d0 st1 e n s2 I1 E Hx) as [Hq _].
   split.
-  - apply (h_pre tr1 st1 HI). now rewrite Hq.
-  - intro Hc. apply P1 in Hc. congruence.
+  - now apply (h_pre tr1 st1 HI).
+  - intro Hc. apply P1 in Hc. rewrite Hc in Hq. discriminate.
 Qed.
 End PushOrder.
+
+(* ------------------------------------------------------------------ mounted nodes *)
+
+Definition mounted_ph (p : phase) : bool :=
+  match p with MountedP | Done | Dead => true | _ => false end.
+
+Lemma mounted_closed : closed_set mounted_ph.
+Proof. closed_set_tac. Qed.
+
+Section Mounted.
+Variable g : graph.
+Variable c : cfg.
+Variable d0 : list node.
+
+Definition MInv (h : list event) (st : state) : Prop :=
+  forall n, In (MtE n MMounted) h ->
+    mounted_ph (ph st n) = true /\ (ph st n = Done -> In (Cb CMounted n) h).
+
+Lemma step_mounted st n st' : step g c st (MtE n MMounted) = Some st' -> ph st' n = MountedP.
+Proof.
+  unfold step. destruct (returned st); [discriminate|].
+  destruct (ph st n); try discriminate.
+  destruct (has g (dst st) n); [discriminate|].
+  intro H. injection H as <-. simpl. apply upd_same.
+Qed.
+
+Lemma step_to_done_mounted st e st' n : step g c st e = Some st' -> ph st' n = Done ->
+  ph st n <> Done -> mounted_ph (ph st n) = true -> e = Cb CMounted n.
+Proof.
+  intros H Hd Hn Hp.
+  step_inv H; simp_st; try congruence;
+  (upd_cases n n0; [| congruence]);
+  repeat match goal with Hq : ph st _ = _ |- _ => try rewrite Hq in Hp; clear Hq end;
+  simpl in Hp; try discriminate Hp; try reflexivity;
+  split_ifs_in Hd; try discriminate Hd; try discriminate Hp.
+Qed.
+
+Lemma minv_step h st e st' : MInv h st -> step g c st e = Some st' -> MInv (h ++ [e]) st'.
+Proof.
+  intros M H n Hn. apply in_app_iff in Hn as [Hn|[Hn|[]]].
+  - destruct (M n Hn) as [M1 M2]. split.
+    + eapply mounted_closed; eauto.
+    + intro Hd. apply in_app_iff.
+      destruct (phase_eq_done (ph st n)) as [Hq|Hq]; [left; auto|].
+      right. left. exact (step_to_done_mounted st e st' n H Hd Hq M1).
+  - subst e. rewrite (step_mounted st n st' H). split; [reflexivity|discriminate].
+Qed.
+
+Lemma minv_run tr : forall h st st', MInv h st -> run g c st tr = Some st' -> MInv (h ++ tr) st'.
+Proof.
+  induction tr as [|e tr IH]; simpl; intros h st st' M H.
+  - injection H as <-. now rewrite app_nil_r.
+  - destruct (step g c st e) as [s1|] eqn:E; [|discriminate].
+    replace (h ++ e :: tr) with ((h ++ [e]) ++ tr) by (rewrite <- app_assoc; reflexivity).
+    apply (IH (h ++ [e]) s1 st'); [eapply minv_step; eauto | exact H].
+Qed.
+
+(* a mounted node of a successful copy triggers exactly one OnMounted *)
+Lemma mounted_exactly_once tr st n :
+  accepts g c d0 tr = Some st -> returned st = Some true ->
+  In (MtE n MMounted) tr -> cnt (is_cb CMounted n) tr = 1.
+Proof.
+  intros Ha Hr Hin. pose proof Ha as Ha'. unfold accepts in Ha.
+  pose proof (run_inv g c d0 tr _ _ (init_inv g c d0) Ha) as I.
+  assert (M : MInv tr st).
+  { apply (minv_run tr [] (init c d0) st); [intros m []|exact Ha]. }
+  destruct (M n Hin) as [M1 M2].
+  assert (Hn : n < g_n g).
+  { apply (i_bound g c d0 st I). intro Hz. rewrite Hz in M1. discriminate. }
+  destruct (run_ret_true g c tr _ _ Ha eq_refl Hr) as [_ Hall].
+  specialize (Hall n Hn).
+  assert (Hd : ph st n = Done).
+  { destruct (ph st n); simpl in *; try discriminate; reflexivity. }
+  pose proof (cb_once g c CMounted n tr _ _ Ha) as L.
+  assert (G1 : 1 <= cnt (is_cb CMounted n) tr)
+    by (eapply cnt_ge1; [exact (M2 Hd) | simpl; now rewrite Nat.eqb_refl]).
+  lia.
+Qed.
+End Mounted.
